@@ -135,6 +135,9 @@ BufrDescriptor  *bufr_create_descriptor( BUFR_Tables *tbls, int desc )
    d = (BufrDescriptor *)malloc(sizeof(BufrDescriptor));
 #endif
 
+#ifdef LIBECBUFR_VERIF
+   bufr_verif_live[BUFR_VK_DESCRIPTOR]++;
+#endif
    d->descriptor         = desc;
    d->s_descriptor       = 0;
    d->encoding.type      = TYPE_UNDEFINED;
@@ -201,6 +204,9 @@ BufrDescriptor  *bufr_dupl_descriptor( BufrDescriptor *dup )
 #else
    code = (BufrDescriptor *)malloc(sizeof(BufrDescriptor));
 #endif
+#ifdef LIBECBUFR_VERIF
+   bufr_verif_live[BUFR_VK_DESCRIPTOR]++;
+#endif
    code->afd                = NULL;
    code->value              = NULL;
    code->meta               = NULL;
@@ -240,6 +246,9 @@ void bufr_free_descriptor( BufrDescriptor *code )
       code->value = NULL;
       }
 
+#ifdef LIBECBUFR_VERIF
+   bufr_verif_live[BUFR_VK_DESCRIPTOR]--;
+#endif
 #if USE_GCMEMORY
    gcmem_dealloc(BufrDescriptor_gcmemory, code );
 #else
